@@ -6,10 +6,13 @@
 
    Shared with the model on purpose: the value type, truthy / equals / value_string
    (Model/Values.v -- their laws are the subject of C20: truthiness table, equality by kind,
-   Int/Float numerically, collections by identity) and the numeric model (Model/Num.v: exact
-   dyadic floats; an operation whose exact result is not a binary64, and an integer result
-   outside int64, is [OutOfModel]: the Spec does not say what the language does there, the
-   theorem excludes it and the generators avoid it).
+   Int/Float numerically, collections by identity) and the numeric model (Model/Num.v: floats
+   are dyadic rationals m * 2^e; the operators + - * / give the IEEE 754 result, i.e. the exact
+   result rounded to the nearest binary64, ties to even (fl_add_r ... fl_div_r); an integer
+   result outside int64, a float result beyond the exponent range of the model, an int beyond
+   2^53 used as a float, and the functions round/floor/ceiling/min/max on a value where their
+   exact computation is not a binary64 are [OutOfModel]: the Spec does not say what the
+   language does there and the theorem excludes it).
 
    Identity.  Soy == on lists and maps is identity, so evaluation threads a counter [n]:
    every evaluation of a non-empty list literal, of any map literal, and every collection
@@ -122,7 +125,7 @@ Definition sem_add (a c : value) : outcome value :=
   match a, c with
   | VInt x, VInt y => int_result (x + y)
   | VStr _, _ | _, VStr _ => s1 <- value_string a ;; s2 <- value_string c ;; Ok (VStr (s1 ++ s2))
-  | _, _ => x <- number_of a ;; y <- number_of c ;; float_result (fl_add x y)
+  | _, _ => x <- number_of a ;; y <- number_of c ;; float_result (fl_add_r x y)
   end.
 
 Definition sem_int_or_float (fi : Z -> Z -> Z) (ff : fl -> fl -> option fl) (a c : value) : outcome value :=
@@ -132,7 +135,7 @@ Definition sem_int_or_float (fi : Z -> Z -> Z) (ff : fl -> fl -> option fl) (a c
   end.
 
 Definition sem_div (a c : value) : outcome value :=
-  x <- number_of a ;; y <- number_of c ;; float_result (fl_div x y).
+  x <- number_of a ;; y <- number_of c ;; float_result (fl_div_r x y).
 
 (* remainder of integers only, sign of the dividend; no value for a zero divisor *)
 Definition sem_mod (a c : value) : outcome value :=
@@ -155,8 +158,8 @@ Definition sem_order (op : bop) (a c : value) : outcome value :=
 Definition sem_strict (op : bop) (a c : value) : outcome value :=
   match op with
   | BAdd => sem_add a c
-  | BSub => sem_int_or_float Z.sub fl_sub a c
-  | BMul => sem_int_or_float Z.mul fl_mul a c
+  | BSub => sem_int_or_float Z.sub fl_sub_r a c
+  | BMul => sem_int_or_float Z.mul fl_mul_r a c
   | BDiv => sem_div a c
   | BMod => sem_mod a c
   | BLt | BGt | BLe | BGe => sem_order op a c
@@ -224,6 +227,13 @@ Definition fn_arities (f : fn) : list nat :=
   | FRange => [1; 2; 3]
   | _ => [1]
   end%nat.
+
+(* the Spec's inventory of functions, and the function a name denotes (None: the Spec knows no such
+   function; C01_function_table_complete shows that the table regenerated from soyhtml.Funcs holds
+   no such name) *)
+Definition all_fns : list fn :=
+  [FIsNonnull; FLength; FKeys; FAugmentMap; FRound; FFloor; FCeiling; FMin; FMax; FRandomInt; FStrContains; FRange; FHasData].
+Definition fn_of_name (name : bstr) : option fn := find (fun f => bstr_eqb name (fn_name f)) all_fns.
 
 Inductive fresult := RValue (v : value) | RList (l : list value) | RMap (m : list (bstr * value)).
 
